@@ -3,6 +3,7 @@ use crate::term::*;
 
 pub mod c01;
 pub mod c02;
+pub mod c02cst;
 pub mod c03;
 pub mod c04;
 pub mod c05;
